@@ -805,7 +805,7 @@ def hangul_rule(ck, fns, report, cp_name="cp", cp2_name="cp2"):
     return dict(function=found.name, followed=sorted({x[0] for x in explored}), paths=len(paths), arithmetic_results=n_arith, rows={k: len(v) for k, v in covered.items()})
 
 
-def hangul_decomp_rule(ck, fns, callers, report, cp_name="cp", dest_name="dest"):
+def hangul_decomp_rule(ck, fns, callers, report, cp_name="cp", dest_name="dest", room_report=None):
     """clause: the algorithmic Hangul *decomposition* is the inverse of the composition of UAX #15.  The routine computes its three jamo from
     s = cp - SBase by divisions and remainders with constants; each udiv/urem is replaced by its defining tie x = k*q + r, 0 <= r < k
     (one lemma: (x % m) % k = x % k when k divides m), the stores to dest[0..3] are collected per path, and on every successful path the
@@ -814,7 +814,7 @@ def hangul_decomp_rule(ck, fns, callers, report, cp_name="cp", dest_name="dest")
         1 <= T-TBase <= 27 (three jamo) or no T and the sum without it (two jamo), followed by a 0, return value = number of jamo.
     The mixed-radix representation is unique, so these entail the standard's decomposition.  The precondition SBase <= cp <= SFinal is
     checked at every call site by interval reachability.  Nothing is evaluated on concrete syllables."""
-    from ..lin import Lin, entails
+    from ..lin import Lin, entails, satisfiable
     found = None
     CP = SIDX = None
     for fn in fns:
@@ -863,8 +863,12 @@ def hangul_decomp_rule(ck, fns, callers, report, cp_name="cp", dest_name="dest")
             return S + Lin.const(H_SBASE)
         if o["id"] == SIDX:
             return S
+        if o["id"] in forked:
+            return Lin.const(forked[o["id"]])
         d = fn.defs.get(o["id"])
         if d is None:
+            if o["id"] in fn.params:
+                return Lin.atom("param:" + fn.params[o["id"]]["name"])
             raise Und("value %s" % o["id"])
         op = d["op"]
         if op in ("add", "sub"):
@@ -891,7 +895,8 @@ def hangul_decomp_rule(ck, fns, callers, report, cp_name="cp", dest_name="dest")
                 return r
             return q
         raise Und("%s (%s)" % (o["id"], op))
-    results = dict(function=fn.name, paths=0, success_paths=0, obligations=0, call_sites=0)
+    results = dict(function=fn.name, paths=0, success_paths=0, obligations=0, call_sites=0, stores_with_room=0)
+    forked = {}
 
     def slot(ptr):
         if ptr.get("id") == DEST:
@@ -899,6 +904,14 @@ def hangul_decomp_rule(ck, fns, callers, report, cp_name="cp", dest_name="dest")
         d = fn.defs.get(ptr.get("id"))
         if d is not None and d["op"] == "getelementptr" and d["base"].get("id") == DEST and not d.get("terms"):
             return d.get("coff", 0) // 4 if d.get("coff", 0) % 4 == 0 else None
+        if d is not None and d["op"] == "getelementptr" and d["base"].get("id") == DEST and len(d.get("terms", ())) == 1 and d["terms"][0]["stride"] == 4:
+            try:
+                ix = val(d["terms"][0]["v"])
+            except Und:
+                return None
+            if ix.is_const() and d.get("coff", 0) % 4 == 0:
+                return d.get("coff", 0) // 4 + int(ix.c)          # an index that a forked select has made constant on this path
+            return None
         if d is not None and d["op"] == "bitcast":
             return slot(d["ops"][0])
         return None
@@ -956,15 +969,30 @@ def hangul_decomp_rule(ck, fns, callers, report, cp_name="cp", dest_name="dest")
             need(T - Lin.const(1), "T-index >= 1"); need(Lin.const(H_TCOUNT - 1) - T, "T-index < 28")
         need(total - S, "sum >= s (588*L + 28*V + T recomposes the syllable)"); need(S - total, "sum <= s (588*L + 28*V + T recomposes the syllable)")
 
-    def walk(bb, pred_bb, stores, pf, depth=0):
-        if depth > 40:
+    def walk(bb, pred_bb, stores, pf, depth=0, start=0):
+        if depth > 60:
             raise Und("path too long")
         stores = dict(stores)
-        for i in fn.blocks[bb]["insts"]:
+        for i in fn.blocks[bb]["insts"][start:]:
+            if i["op"] == "select" and i["ty"].startswith("i") and i["ty"] != "i1" and all(o.get("k") == "c" for o in i["ops"][1:3]) and i["id"] not in forked:
+                # `len = tindex ? 3 : 2`: both alternatives are followed with the condition as a path fact
+                for truth, alt in ((True, i["ops"][1]), (False, i["ops"][2])):
+                    forked[i["id"]] = alt["v"]
+                    try:
+                        walk(bb, pred_bb, stores, pf + guard(i["ops"][0], truth), depth + 1, i["_k"] + 1)
+                    finally:
+                        del forked[i["id"]]
+                return
             if i["op"] == "store":
                 k = slot(i["ops"][1])
                 if k is None:
                     raise Und("store to something other than dest[constant]")
+                if room_report is not None and "dmax" in fn.pnames:
+                    # C01's part: the slot written lies inside the dmax elements the caller declared
+                    results["stores_with_room"] += 1
+                    if not entails(facts + pf, Lin.atom("param:dmax") - Lin.const(k + 1)):
+                        room_report("C01:no-room-established:%s:slot%d" % (fn.name, k), "B-room-before-the-store", fn.loc(i),
+                                    "%s stores dest[%d] on a path that has not established dmax >= %d" % (fn.name, k, k + 1))
                 stores[k] = val(i["ops"][0])
             elif i["op"] == "call" and not i.get("intrinsic"):
                 raise Und("call")
@@ -988,7 +1016,10 @@ def hangul_decomp_rule(ck, fns, callers, report, cp_name="cp", dest_name="dest")
         if "cond" not in t:
             return walk(t["t"], bb, stores, pf, depth + 1)
         for truth, succ in ((True, t["t"]), (False, t["f"])):
-            walk(succ, bb, stores, pf + guard(t["cond"], truth), depth + 1)
+            pf2 = pf + guard(t["cond"], truth)
+            if not satisfiable(facts + pf2):
+                continue          # e.g. the `tindex == 0` side after `len = tindex ? 3 : 2` was followed with tindex != 0
+            walk(succ, bb, stores, pf2, depth + 1)
     try:
         walk(fn.entry, None, {}, [])
     except Und as e:
@@ -1185,4 +1216,10 @@ def selftest(ck):
         out[n] = dict(r, reports=got)
         if sk.broken or bool(got) != want or not r.get("success_paths"):
             ck.fail_broken("fixture c17.c:%s: Hangul decomposition rule %s (%s)" % (n, "did not fire" if want else "fired on conforming code", sk.broken or got))
+    for n, want in (("fx17_hdec_good", []), ("fx17_hdec_room_tight", ["C01:no-room-established:fx17_hdec_room_tight:slot2", "C01:no-room-established:fx17_hdec_room_tight:slot3"])):
+        got, sk = [], Sink()
+        r = hangul_decomp_rule(sk, [prog.funcs[n]], [], lambda *a, **k: None, room_report=lambda key, *a, **k: got.append(key))
+        out[n + ":room"] = dict(stores=r.get("stores_with_room"), reports=sorted(set(got)))
+        if sk.broken or sorted(set(got)) != want or not r.get("stores_with_room"):
+            ck.fail_broken("fixture c17.c:%s: room clause reported %s, expected %s (%s)" % (n, sorted(set(got)), want, sk.broken))
     return out
